@@ -48,6 +48,7 @@ type Work struct {
 	ResBuf     int    `json:"res_buf,omitempty"`     // buffer of the pool's result channel (0 = 2)
 	AnonSend   bool   `json:"anon_send,omitempty"`   // sends go through an anonymous call site shared by several goroutines
 	Nils       bool   `json:"nils,omitempty"`        // interface channels also carry nil items
+	ListClose  bool   `json:"list_close,omitempty"`  // the first channel is also kept in a list and closed through the list element
 	LocalName  int    `json:"local_name,omitempty"`  // >0: the per-invocation variable of workers / relays has an everyday name (timeout, done, reply ...); the environment also carries the core builtins
 	OddShift   int    `json:"odd_shift,omitempty"`   // which odd item comes first
 	Odd        bool   `json:"odd,omitempty"`         // ... and items that are legal values but easy to mistake for "nothing": empty lists and maps, a list holding nil, booleans, zero numbers, the empty string
@@ -143,6 +144,7 @@ func (Prop) Gen(seed int64, tier string) *harness.Case {
 	if r.Intn(3) == 0 {
 		w.LocalName = 1 + r.Intn(len(localNames))
 	}
+	w.ListClose = r.Intn(4) == 0
 	w.Dispatch = w.Workers <= 1 && !w.Relay && r.Intn(5) == 0
 	w.DispForm = r.Intn(4)
 	if r.Intn(5) == 0 {
@@ -595,7 +597,12 @@ func Render(w *Work) string {
 			b.WriteString("pid = 77\n")
 		}
 	}
-	fmt.Fprintf(&b, "go func() {\nfor k = 0; k < %d; k++ { <-dn }\ncl0 = true\nclose(ch0)\n}()\n", np)
+	if w.ListClose {
+		// a channel is the same channel wherever the script keeps it
+		fmt.Fprintf(&b, "chl = [ch0, dn]\ngo func() {\nfor k = 0; k < %d; k++ { <-chl[1] }\ncl0 = true\nclose(chl[0])\n}()\n", np)
+	} else {
+		fmt.Fprintf(&b, "go func() {\nfor k = 0; k < %d; k++ { <-dn }\ncl0 = true\nclose(ch0)\n}()\n", np)
+	}
 	for s := 1; s < stages; s++ {
 		in, out := fmt.Sprintf("ch%d", s-1), fmt.Sprintf("ch%d", s)
 		v := fmt.Sprintf("v%d", s)
